@@ -112,6 +112,8 @@ type interp struct {
 
 const maxSteps = 20000
 
+const tooLarge = "program too large for the interpreter budget"
+
 // Interpret computes the expected output of c.
 func Interpret(c Case) (res Result) {
 	m := &interp{c: c, res: &res}
@@ -231,7 +233,7 @@ func (m *interp) cond(e env, path string) bool {
 func (m *interp) step() {
 	m.steps++
 	if m.steps > maxSteps {
-		m.unspec("program too large for the interpreter budget")
+		m.unspec(tooLarge)
 	}
 }
 
